@@ -244,7 +244,22 @@ def rule_htyped(prog, handlers):
     adt = value_adt(prog)
     names = [v['name'] for v in adt['variants']]
     obs = []
-    for h in handlers:
+    for h0 in handlers:
+        one = _htyped_one(prog, h0, acc_ids, names)
+        if one.status == 'violated':
+            # an operand handed to a private helper (`fold_bool_list(param, ..)`) is judged where the helper uses it
+            v = prog.view(h0, keep=lambda g: g.is_pub or bool(g.impl_trait), tag='handler')
+            if v is not h0:
+                two = _htyped_one(prog, v, acc_ids, names)
+                if two.status != 'violated':
+                    two.what += ' [read with helpers inlined]'
+                    one = two
+        obs.append(one)
+    return obs
+
+
+def _htyped_one(prog, h, acc_ids, names):
+    if True:
         key = 'HTYPED|%s' % h.name
         problems = []
         n_vals = 0
@@ -301,10 +316,8 @@ def rule_htyped(prog, handlers):
                 else:
                     problems.append('operand used by %s' % (k,))
         if problems:
-            obs.append(bad('HTYPED', key, 'a built-in handler consumes an operand without a type gate: %s' % '; '.join(sorted(set(problems))[:4]), h.where(), body=h.name))
-        else:
-            obs.append(ok('HTYPED', key, '%d Value operand(s): each consumed only via typed accessor + ?, failing variant match, Value equality or unchanged return' % n_vals, h.where()))
-    return obs
+            return bad('HTYPED', key, 'a built-in handler consumes an operand without a type gate: %s' % '; '.join(sorted(set(problems))[:4]), h.where(), body=h.name)
+        return ok('HTYPED', key, '%d Value operand(s): each consumed only via typed accessor + ?, failing variant match, Value equality or unchanged return' % n_vals, h.where())
 
 
 def rule_hgate(prog, handlers):
